@@ -10,6 +10,8 @@ import (
 )
 
 type faultCase struct {
+	// Base: the valid document the fault was injected into.
+	Base  *vlib.Doc  `json:"base,omitempty"`
 	Doc   *vlib.Doc  `json:"doc"`
 	Fault vlib.Fault `json:"fault"`
 	OK    bool       `json:"ok"`
@@ -18,7 +20,51 @@ type faultCase struct {
 func genFaultCase(t *rapid.T) faultCase {
 	base := vlib.GenDoc(t, vlib.GenOpts{Macros: rapid.Bool().Draw(t, "macros")})
 	doc, fault, ok := vlib.InjectFault(t, base)
-	return faultCase{Doc: doc, Fault: fault, OK: ok}
+	return faultCase{Base: base, Doc: doc, Fault: fault, OK: ok}
+}
+
+// c11Revalidate: the fault arrives through INCLUDE as an edit. The valid
+// document's directives live in an included file; the project is validated,
+// the included file is overwritten in place with the faulty version and the
+// project is validated again (same path, same process), then the edit is
+// undone.
+func c11Revalidate(c faultCase, info *vlib.Info) *vlib.Failure {
+	if !c.OK || c.Base == nil || c.Fault.Route == "in-unused-macro" || c.Fault.Kind == "omit-param-JSIGHT" ||
+		len(c.Base.Top) < 2 || c.Base.Top[0].Kw != "JSIGHT" || len(c.Doc.Top) < 2 || c.Doc.Top[0].Kw != "JSIGHT" {
+		info.Class("ineligible")
+		return nil
+	}
+	valid := vlib.RenderDirs(c.Base.Top[1:], 0, vlib.Style{}, "inc.jst").Text
+	faulty := vlib.RenderDirs(c.Doc.Top[1:], 0, vlib.Style{}, "inc.jst").Text
+	p := vlib.Project{Root: "root.jst", Files: map[string]string{"root.jst": "JSIGHT 0.3\nINCLUDE inc.jst\n", "inc.jst": valid}}
+	dir := vlib.Materialise(p)
+	defer removeAll(dir)
+	info.Sample = map[string]any{"fault": c.Fault, "valid": valid, "faulty": faulty}
+	if r := vlib.RunIn(p, dir); !r.Accepted {
+		info.Class("valid-form-not-accepted-when-included")
+		return nil
+	}
+	info.NonTrivial = true
+	info.Class("edit-through-include")
+	info.Class("fault:" + c.Fault.Kind)
+	p.Files["inc.jst"] = faulty
+	vlib.MaterialiseIn(p, dir)
+	r2 := vlib.RunIn(p, dir)
+	if r2.Panic != "" {
+		return nil // C01
+	}
+	if r2.Accepted {
+		return vlib.Failf("fault-accepted-after-edit: "+c.Fault.Kind, "the included file was overwritten with a version holding the fault %q and the project is still accepted\n--- included file now:\n%s", c.Fault.Kind, faulty)
+	}
+	if r2.Err.File != "inc.jst" {
+		return vlib.Failf("fault-located-elsewhere", "diagnostic %q for a fault in the included file is located in %q", r2.Err.Msg, r2.Err.File)
+	}
+	p.Files["inc.jst"] = valid
+	vlib.MaterialiseIn(p, dir)
+	if r3 := vlib.RunIn(p, dir); !r3.Accepted {
+		return vlib.Failf("valid-rejected-after-edit", "after the fault %q was removed from the included file again the project is still rejected (%s)\n--- included file now:\n%s", c.Fault.Kind, r3.Err.Msg, valid)
+	}
+	return nil
 }
 
 func init() {
@@ -185,13 +231,15 @@ func c11Check(c faultCase, info *vlib.Info) *vlib.Failure {
 
 func TestC11(t *testing.T) {
 	h := vlib.New(t, "C11", "fault_enumeration",
-		"valid generated documents x one injected fault of every kind the property lists (duplicate type / enum / macro / server / tag, same method+path twice, same URL path twice, similar paths, second singleton child of each kind, omitted required parameter of each directive, undefined type / enum / macro / tag reference in each syntactic position) x site, directly, inside pasted and unused macros, inside parenthesised blocks, on hoisted methods and (through the splitter) in included files; oracle: rejected, diagnostic in the file and inside the span of an offending directive; non-trivial = document has >= 3 blocks and the fault is not in the first block; distinct by rendered text",
+		"valid generated documents x one injected fault of every kind the property lists (duplicate type / enum / macro / server / tag, same method+path twice, same URL path twice, similar paths, second singleton child of each kind, omitted required parameter of each directive, undefined type / enum / macro / tag reference in each syntactic position) x site, directly, inside pasted and unused macros, inside parenthesised blocks, on hoisted methods; and as an edit through INCLUDE (the document's directives in an included file that is validated, overwritten in place with the faulty version, validated again, restored and validated again - same path, same process); oracle: rejected, diagnostic in the file and inside the span of an offending directive; non-trivial = document has >= 3 blocks and the fault is not in the first block; distinct by rendered text",
 		"for an omitted name of a TYPE/ENUM/TAG/MACRO/SERVER only rejection is required (a diagnostic at a now-dangling reference is legitimate)")
-	req := []string{"route:direct", "route:in-pasted-macro", "route:in-parenthesised"}
+	defer vlib.CleanupScratch()
+	req := []string{"route:direct", "route:in-pasted-macro", "route:in-parenthesised", "edit-through-include"}
 	for _, k := range vlib.FaultKinds {
 		req = append(req, "fault:"+k)
 	}
 	h.Require(req...)
 	runRegression(h, c11Regression)
 	vlib.Rapid(h, "injected-faults", h.N(30000, 1000000), genFaultCase, c11Check)
+	vlib.Rapid(h, "faults-edited-into-included-file", h.N(3000, 100000), genFaultCase, c11Revalidate)
 }
